@@ -28,7 +28,10 @@ REQUIRED = ['kfold_partition', 'schedule_out_of_fold', 'coef_convex', 'coef_nan_
             # Props/C20_Gen.lean: ties of the regenerated lines of SuperLearner.fit / predict (Gen/Stack.lean) to the model
             'sl_coefficients_generated', 'coef_convex_generated', 'sl_fit_full_generated', 'sl_fit_discrete_generated',
             'sl_discrete_generated', 'sl_predict_l2_generated', 'sl_predict_nloglik_generated',
-            'predict_in_hull_generated', 'sl_cv_calls_generated', 'cv_schedule_generated']
+            'predict_in_hull_generated', 'sl_cv_calls_generated', 'cv_schedule_generated',
+            # Props/C20_Step.lean: the column bookkeeping of StepwiseSL.fit (Gen/Stepwise.lean)
+            'sw_start_generated', 'sw_fits_generated', 'sw_break_generated', 'sw_avail_generated', 'search_generated',
+            'stepwise_sound_generated']
 RULE = ('SuperLearner: cells loss {L2, nloglik} x discrete {no, yes} x 1..5 candidates, two fold counts from 2..10 per '
         'cell, n random in 10..200 (n not divisible by folds in most cases), synthetic memorising spies and spies '
         'wrapping real learners (EmpiricalMeanSL, GLMSL, StepwiseSL, sklearn); plus rejected (folds > n, folds < 2), '
@@ -770,6 +773,9 @@ def check_stepwise(chk, drv, case):
             ok = rep['status'] == 'ok' and rep['cols'] == enc_cols(out['cols']) and rep['done'] == '1' and \
                 unfx(rep['aic']) == out['aic'] and \
                 rep['visited'] == ';'.join(enc_cols(c) for c, _ in log[1:])
+        # executed: the search driven by the column bookkeeping regenerated from StepwiseSL.fit (Gen/Stepwise.lean);
+        # `model` = the hand-written Stepwise.search agrees (search_generated)
+        ok = ok and rep.get('model') == '1'
         chk.k(ok, 'stepwise: model reproduces visited sequence, cols_optim and AIC',
               {'case': case, 'model': rep, 'impl': {k_: out.get(k_) for k_ in ('cols', 'aic', 'err')},
                'log': [(enc_cols(c), a) for c, a in log][:40]} if not ok else None)
